@@ -337,7 +337,9 @@ class C12(Check):
             c["exact16k"] = which
             cfgs.append(c)
         with cf.ThreadPoolExecutor(max_workers=8) as ex:
-            runs = list(ex.map(lambda c: proc.run(binary, c, self.seed + c["qos_lens"][0]), cfgs))
+            runs = list(ex.map(lambda c: proc.run(binary, c, self.seed + c["qos_lens"][0]), [c for c in cfgs if not c.get("exact16k")]))
+        # the exact-16384 runs size their message with the reference encoder's (module-wide) size probe: one at a time
+        runs += [proc.run(binary, c, self.seed + c["qos_lens"][0]) for c in cfgs if c.get("exact16k")]
         rows = []
         for c, r in zip(cfgs, runs):
             q = c["qos_lens"][0]
